@@ -13,6 +13,8 @@ def lab(x):
 LABELS = [lab("a"), lab("b"), json.dumps({"label": "ü\"'", "n": [1, {"k": None}], "f": 0.5},
                                          sort_keys=True, separators=(",", ":"), ensure_ascii=False)]
 BUCKETS = ["b0", "b1", "bü-2"]
+# ids that SQL LIKE would confuse (case twins, "_" as a wildcard) and that contain each other
+BUCKETS_LIKE = ["aw_w", "aw-w", "AW_W", "aw_w%"]
 
 
 def mk_meta(rng, b, with_name=None):
@@ -29,8 +31,14 @@ def mk_meta(rng, b, with_name=None):
     return m
 
 
+DAY = 86_400 * SEC
+
+
 def rand_ev(rng, grid=8):
-    return [None, T0 + rng.randrange(grid) * SEC, rng.choice([0, 0, SEC, 2 * SEC, 3 * SEC]), rng.choice(LABELS)]
+    dur = rng.choice([0, 0, SEC, 2 * SEC, 3 * SEC])
+    if rng.random() < 0.06:  # day-scale durations (timedelta keeps days, seconds and microseconds apart)
+        dur = rng.choice([DAY, DAY + SEC, 2 * DAY + 1500, 30 * DAY])
+    return [None, T0 + rng.randrange(grid) * SEC, dur, rng.choice(LABELS)]
 
 
 class HistGen:
@@ -38,7 +46,7 @@ class HistGen:
 
     def __init__(self, rng, nbuckets=2, grid=8):
         self.rng = rng
-        self.buckets = BUCKETS[:nbuckets]
+        self.buckets = (BUCKETS_LIKE if rng.random() < 0.15 else BUCKETS)[:nbuckets]
         self.grid = grid
         self.ops = []
         self.nrefs = 0
@@ -70,15 +78,24 @@ class HistGen:
                 self.live[b].append(self.nrefs)
                 self.nrefs += 1
 
+    def carried(self):
+        """the event object passed to replace / replace_last may carry any id of its own (e.g. an event that was
+        read back earlier): the addressed id is what counts"""
+        e = rand_ev(self.rng, self.grid)
+        everything = [r for x in self.buckets for r in self.live[x]]
+        if everything and self.rng.random() < 0.3:
+            e[0] = ["ref", self.rng.choice(everything)]
+        return e
+
     def op_replace(self, b):
         if not self.live[b]:
             return self.op_insert(b)
-        self.ops.append(["replace", b, ["ref", self.rng.choice(self.live[b])], rand_ev(self.rng, self.grid)])
+        self.ops.append(["replace", b, ["ref", self.rng.choice(self.live[b])], self.carried()])
 
     def op_replacelast(self, b):
         if not self.live[b]:
             return self.op_insert(b)
-        self.ops.append(["replacelast", b, rand_ev(self.rng, self.grid)])
+        self.ops.append(["replacelast", b, self.carried()])
 
     def op_delete(self, b):
         if self.live[b] and self.rng.random() < 0.7:
